@@ -9,7 +9,7 @@ RULE = (
     "seeded Tasklang programs dense in with-blocks (AsyncContext subclasses, scoped-value and attribute overrides; "
     "nesting <= 4; blocks spanning 0-5 yields; several concurrently pending tasks; blocks left normally, by exceptions "
     "thrown into or raised inside them, and by early return/result()); profile A adds sync re-entry and shared tasks, "
-    "profile N (yield-only, no shared tasks) adds NonAsyncContext blocks; in one program of six some contexts' own resume()/pause() raise on the 2nd/3rd call (the oracles then apply to all OTHER contexts, without the reference), half of them from a structured family: a synchronously called subtree whose context fails on re-activation after a flush, handled by the caller, which then opens contexts of its own and blocks in them. All get_priority() policies, both builds. "
+    "profile N (yield-only, no shared tasks) adds NonAsyncContext blocks; in one program of six some contexts' own resume()/pause() raise on the 1st (= on entry: the block is then never entered and the context must never be called again), 2nd or 3rd call (the oracles then apply to all OTHER contexts, without the reference), half of them from a structured family: a synchronously called subtree whose context fails on re-activation after a flush, handled by the caller, which then opens contexts of its own and blocks in them. All get_priority() policies, both builds. "
     "In-run oracles: per context strict resume/pause alternation from entry (resumed) to exit (paused); at every task "
     "step and every flush each live context must be ACTIVE if its owner runs (also inside a sync call) or a running task "
     "is reachable only through its owner, and PAUSED if its owner awaits no running task (every context at a top-level "
@@ -114,7 +114,7 @@ def lease_program(rnd):
         "kinds": 2,
         "faults": {},
         "flush_faults": {},
-        "ctx_faults": {"lease": [rnd.choice(["resume", "resume", "resume", "pause"]), rnd.choice([2, 2, 3])]},
+        "ctx_faults": {"lease": [rnd.choice(["resume", "resume", "resume", "pause"]), rnd.choice([1, 2, 2, 3])]},
         "defaults": {"sv0": "dflt-sv0", "sv1": "dflt-sv1", "at0": "dflt-at0"},
     }
 
@@ -165,7 +165,7 @@ def run_unit(unit, progress):
             if len(names) >= 2:
                 prog["ctx_faults"] = {}
                 for nm in frnd.sample(names, min(len(names) - 1, frnd.randint(1, 2))):
-                    prog["ctx_faults"][nm] = [frnd.choice(["resume", "resume", "pause"]), frnd.randint(2, 3)]
+                    prog["ctx_faults"][nm] = [frnd.choice(["resume", "resume", "pause"]), frnd.randint(1, 3)]
                 faulty = True
         if prog.get("shared"):
             # a read under a task awaited by several parents has no unique sequential answer
